@@ -312,7 +312,8 @@ impl<'a> DwarfUnwinder<'a> {
         let frame_0_location = self
             .debugee
             .tracee_ctl()
-            .tracee_ensure(pid)
+            .tracee(pid)
+            .ok_or(Error::TraceeNotFound(pid.as_raw() as u32))?
             .location(self.debugee)?;
 
         let mut ecx = ExplorationContext::new(frame_0_location, 0);
@@ -372,7 +373,8 @@ impl<'a> DwarfUnwinder<'a> {
         let frame_0_location = self
             .debugee
             .tracee_ctl()
-            .tracee_ensure(pid)
+            .tracee(pid)
+            .ok_or(Error::TraceeNotFound(pid.as_raw() as u32))?
             .location(self.debugee)?;
         let mut ecx = ExplorationContext::new(frame_0_location, 0);
 
@@ -417,7 +419,8 @@ impl<'a> DwarfUnwinder<'a> {
         let frame_0_location = self
             .debugee
             .tracee_ctl()
-            .tracee_ensure(pid)
+            .tracee(pid)
+            .ok_or(Error::TraceeNotFound(pid.as_raw() as u32))?
             .location(self.debugee)?;
         let ecx = ExplorationContext::new(frame_0_location, 0);
 
